@@ -27,6 +27,9 @@ import Driver.SM2Codec
 import Driver.P256Limbs
 import Driver.TLSMessages
 import Driver.HMACModel
+import Driver.PKCS12
+import Driver.ConnRead
+import Driver.X509Names
 open Gmsm
 
 def dispatch (toks : List String) : String :=
@@ -82,6 +85,15 @@ def dispatch (toks : List String) : String :=
     | some r => r
     | none =>
     match Driver.hmacModelDispatch toks with
+    | some r => r
+    | none =>
+    match Driver.pkcs12Dispatch toks with
+    | some r => r
+    | none =>
+    match Driver.connReadDispatch toks with
+    | some r => r
+    | none =>
+    match Driver.x509NamesDispatch toks with
     | some r => r
     | none =>
     match toks with
